@@ -674,10 +674,28 @@ def run_c04(ck, ctx):
                     w[0:9] = bytes(R.choice([0, 0xFF, R.getrandbits(8)]) for _ in range(9))
                 pk[a].words[k] = bytes(w)
             data = G.encode(pk)
+        elif r == 4:
+            # several findings AND an input that ends inside a payload (the message about the incomplete packet is produced by the
+            # reader, all others by the validators: they meet in the collector's sort / code extraction / FEE-ID lookup)
+            pk = [p.clone() for p in R.choice(base_streams)]
+            for a in range(min(len(pk), R.randint(2, 4))):      # damaged identifiers in the first packets: findings in front of the cut
+                if pk[a].words:
+                    k = R.randrange(len(pk[a].words)); w = bytearray(pk[a].words[k]); w[9] ^= R.choice([0x01, 0x02, 0x10]); pk[a].words[k] = bytes(w)
+            offs = G.offsets(pk)
+            cand = [a for a in range(len(pk)) if pk[a].size() > 80]
+            # the position quoted for the incomplete packet is its end: prefer ends whose hexadecimal form starts with a letter
+            # (every message's leading offset is parsed back by the collector)
+            lett = [a for a in cand if a >= 2 and '%X' % (offs[a] + pk[a].size()) > '9']
+            a = R.choice(lett or cand) if cand else len(pk) - 1
+            data = G.encode(pk)[:offs[a] + 64 + R.randrange(1, max(2, pk[a].size() - 64))]
+            ck.count('truncated_in_payload_with_findings')
         else: data = mutate_stream(R, R.choice(base_streams))
         cmd = R.choice(cmds) if r not in (2, 3) else ['check', 'all', 'its-stave']
         opt = R.choice(opts) if cmd[0] == 'check' else R.choice([[], ['-f', '1'], ['-d']]) if cmd[0] == 'view' else []
         if cmd == ['check', 'all', 'its-stave'] and R.random() < 0.3: opt = ['-s', 'L%d_%d' % (R.randint(0, 6), R.randint(0, 11)), '-p', str(R.randint(1, 3563))]
+        if r == 4:
+            cmd = R.choice([['check', 'sanity', 'its'], ['check', 'all', 'its'], ['check', 'all', 'its-stave'], ['check', 'all', 'its'], ['-f', str(pk[0].rdh['link']), '-o', os.devnull]])
+            opt = R.choice([[], ['-m'], ['-E', '9']]) if cmd[0] == 'check' else []
         jobs.append((i, cmd, opt, R.choice(['file', 'pipe']), data))
 
     def job(j):
